@@ -72,11 +72,44 @@ static int ledger_del(void* p)
   return 0;
 }
 
+// sites=1 (counting run): which call paths make the allocations of the armed region.  One record per distinct
+// path (return addresses above the allocator wrappers): first / last / a middle index k and the number of allocations.
+#define SM_FRAMES 7
+#define SM_SKIP 0            // the wrappers' frames are kept (the compiler may inline any of them); the check filters them by name
+#define SM_SIZE 8192
+typedef struct { void* f[SM_FRAMES]; int n; long first, last, mid, count; } SMENT;
+static SMENT* sitemap; static int g_sitemap_on; static unsigned sitemap_used;
+static __attribute__((noinline)) void sitemap_note(long k)
+{
+  void* fr[SM_FRAMES + SM_SKIP + 1]; int n = fp_backtrace(fr, SM_FRAMES + SM_SKIP + 1);
+  void** f = fr + SM_SKIP + 1; n -= SM_SKIP + 1; if (n < 0) n = 0;    // +1: sitemap_note itself
+  if (n > SM_FRAMES) n = SM_FRAMES;
+  uintptr_t h = 1469598103934665603ULL;
+  for (int i = 0; i < n; i++) h = (h ^ (uintptr_t) f[i]) * 1099511628211ULL;
+  unsigned i = (unsigned) (h >> 40) & (SM_SIZE - 1);
+  for (unsigned probes = 0; probes < SM_SIZE; probes++, i = (i + 1) & (SM_SIZE - 1))
+  {
+    SMENT* e = &sitemap[i];
+    if (e->count == 0)
+    {
+      if (sitemap_used >= SM_SIZE - 1) return;
+      memcpy(e->f, f, n * sizeof(void*)); e->n = n; e->first = e->last = e->mid = k; e->count = 1; sitemap_used++; return;
+    }
+    if (e->n == n && !memcmp(e->f, f, n * sizeof(void*)))
+    {
+      e->count++; e->last = k;
+      if ((e->count & (e->count - 1)) == 0) e->mid = k;     // an occurrence in the later half
+      return;
+    }
+  }
+}
+
 static int should_fail(size_t bytes)
 {
   // a zero-size request may legitimately return NULL; it is neither counted nor failed
   if (!g_armed || bytes == 0) return 0;
   g_count++;
+  if (g_sitemap_on) sitemap_note(g_count);
   if (g_fail_k > 0 && ((g_mode == 1 && g_count == g_fail_k) || (g_mode == 2 && g_count >= g_fail_k)))
   {
     if (g_injected == 0)
@@ -491,12 +524,31 @@ int main(int argc, char** argv)
     if (!is_init && !initialised) { yr_initialize(); initialised = 1; }
     load_data();
     g_fail_k = geti("k", 0); g_mode = geti("mode", 1);
+    g_sitemap_on = (int) geti("sites", 0);
+    if (g_sitemap_on)
+    {
+      if (!sitemap) sitemap = (SMENT*) calloc(SM_SIZE, sizeof(SMENT)); else memset(sitemap, 0, SM_SIZE * sizeof(SMENT));
+      sitemap_used = 0;
+    }
     yr_verif_arena_always_move = (int) geti("mv", 0);
     unsigned long live0 = ledger_live, bytes0 = ledger_bytes, seq0 = alloc_seq;
     char rc[160] = "-", res[1400] = "-";
     run_case(kind, rc, res, sizeof rc);
     yr_verif_arena_always_move = 0;
     long N = g_count, inj = g_injected;
+    if (g_sitemap_on)
+    {
+      g_sitemap_on = 0;
+      printf("SITES %s", toks[0]);
+      for (unsigned i = 0; i < SM_SIZE; i++)
+        if (sitemap[i].count)
+        {
+          printf(" ");
+          for (int j = 0; j < sitemap[i].n; j++) printf("%s%lx", j ? "," : "", (unsigned long) ((uintptr_t) sitemap[i].f[j] - g_base));
+          printf(":%ld:%ld:%ld:%ld", sitemap[i].first, sitemap[i].mid, sitemap[i].last, sitemap[i].count);
+        }
+      printf("\n");
+    }
     void* site[NFRAMES]; int nsite = g_nsite; memcpy(site, g_site, sizeof site);
     long leak_blocks = (long) ledger_live - (long) live0, leak_bytes = (long) ledger_bytes - (long) bytes0;
     printf("%s N=%ld inj=%ld rc=%s res=%s leak=%ld:%ld", toks[0], N, inj, rc, res, leak_blocks, leak_bytes);
